@@ -35,7 +35,7 @@ def generate(ctx):
         delay = rng.choice([None, 2]) if trainer not in tr.NEEDS_DELAY else 2
         target = ["fresh", "prerun", "clone"][(i // 3) % 3]
         yield {"kind": kind, "dt": rng.choice([1.0, 0.5, 1.3, 0.25]), "B": rng.randint(1, 2), "seed": rng.randrange(1 << 30),
-               "T": rng.randint(8, 14 if th else 10), "neuron": rng.choice(fac.NEURONS), "neuron2": rng.choice(fac.NEURONS),
+               "T": rng.randint(8, 14 if th else 10), "neuron": rng.choice(fac.NEURONS + ["ExactNeuron", "ExactNeuron"]), "neuron2": rng.choice(fac.NEURONS + ["ExactNeuron"]),
                "syn": rng.choice(fac.SYNAPSES), "delay": delay, "bias": rng.random() < 0.4, "p": rng.choice([0.4, 0.7]),
                "conn": rng.choice(fac.CONNECTIONS), "transform": None, "conns": [rng.choice(["dense", "direct", "lateral"]) for _ in range(2)],
                "nneurons": rng.randint(1, 2), "combine": rng.choice(["sum", "mean", "max"]), "post": False, "pre": False,
@@ -49,7 +49,7 @@ def generate(ctx):
                # kernel trainers: tensor-valued kernel arguments (documented: registered as buffers of the cell's state), annealed
                # in place during the run - trainer state a checkpoint has to carry
                "tensor_kwargs": rng.choice(([] if i % 6 == 4 else [[]]) + [["post_learning_rate"], ["post_learning_rate", "pre_learning_rate"]]),
-               "anneal_at": sorted(rng.sample(range(1, 9), 2))}
+               "anneal_at": sorted(rng.sample(range(1, 9), 2)), "vmon_pre": rng.random() < 0.5}
 
 
 def _mk_reducer(desc, dt, dur):
@@ -100,7 +100,8 @@ class System:
         self.vmon = None
         if desc.get("vmon"):
             red = observe.CAReducer(dt) if desc["vmon"] == "ca" else observe.EMAReducer(dt, 0.3)
-            self.vmon = observe.StateMonitor(red, "voltage", self.parts.neurons[self.first_out])
+            # some of these monitors look at the neuron BEFORE it steps: what they fold first after a restore is restored state
+            self.vmon = observe.StateMonitor(red, "voltage", self.parts.neurons[self.first_out], as_prehook=bool(desc.get("vmon_pre")))
             self.vmon.register()
         self.classifier = None
         if desc["classifier"]:
@@ -193,6 +194,8 @@ def run_case(ctx, desc):
         rdesc = {**desc, "checkpoint_at": k}
         ctx.case(f"{tag}/{desc['target']}/k{'0' if k == 0 else 'T' if k == T else 'mid'}/delay{desc['delay']}/{'ip' if desc['inplace'] else 'oop'}{'/grown' if desc.get('grown') else ''}")
         ctx.count("checkpoint_positions_checked")
+        if desc.get("vmon") and desc.get("vmon_pre"):
+            ctx.count("checkpoints_with_a_monitor_reading_state_before_the_step")
         if desc.get("grown") and (desc["delay"] or desc["reducer_duration"]):
             ctx.count("checkpoints_of_histories_grown_by_setters")
         try:
